@@ -35,6 +35,9 @@ struct S {
     /// the actor also arms two one-shots with a zero delay in started() ("right after this
     /// callback"): a zero delay is a delay like any other
     zero_shots: bool,
+    /// at t=5 a slow message (3 ticks) and two more go in through the waiting path: on a small
+    /// bounded mailbox the interval's tick at t=6 finds no room - and must not mind
+    backlog: bool,
 }
 
 const M_UPWS: u32 = 11;
@@ -85,6 +88,9 @@ impl Scene for S {
         ];
         if self.burst {
             r.work.push((30, crate::world::Work { sleep: 1, ..Default::default() }));
+        }
+        if self.backlog {
+            r.work.push((30, crate::world::Work { sleep: 3, ..Default::default() }));
         }
         vec![r]
     }
@@ -144,6 +150,10 @@ impl Scene for S {
         if self.burst {
             // one slow message, then more forced messages than any small bound has room for
             ops.extend([Op::ForceSend(H::WSnd(0), 30), Op::ForceSend(H::WSnd(0), 31), Op::ForceSend(H::WSnd(0), 32), Op::ForceSend(H::WSnd(0), 33), Op::ForceSend(H::WSnd(0), 34)]);
+        }
+        if self.backlog {
+            let h = if self.subset[2] { H::Snd(0) } else { H::Addr(0) };
+            ops.extend([Op::Send(h, 30), Op::Send(h, 35), Op::Send(h, 36), Op::Sleep(8)]);
         }
         ops.extend([
             Op::UpgradeProbe(H::WAddr(0)),
@@ -251,6 +261,18 @@ impl Scene for S {
                     clause: "timers-keep-firing",
                     key: format!("C15/only-strong={sub}/interval-after-restart"),
                     detail: format!("after self-restart #{r} the interval ticked at {t1:?}; expected two ticks within 5 ticks"),
+                });
+            }
+        }
+        if self.backlog {
+            crate::check::oblige("timers-keep-firing");
+            // the slow message runs from t=5 to t=8, the client's Sleep(8) ends at t>=13: ticks of
+            // the interval are due (and the actor is idle) at t=10 and t=12
+            if !an.enters.iter().any(|e| matches!(e.cb, Cb::Tick { timer: 1, reg_inc: 0 }) && e.time >= 10) {
+                out.push(Violation {
+                    clause: "timers-keep-firing",
+                    key: format!("C15/only-strong={sub}/interval-after-a-full-mailbox"),
+                    detail: format!("the interval found the bounded mailbox full at t=6; once the backlog was worked off (t=8) it never ticked again (ticks handled at {ticks1:?})"),
                 });
             }
         }
@@ -573,8 +595,17 @@ fn base_cases(tier: Tier) -> Vec<Case> {
                         desc: format!("strong-kinds subset={} path={:?} mailbox={} restart={} burst={}", subset_name(&subset), path, mailbox.name(), with_restart, burst),
                         exec: ExecCfg { horizon: 30, ..ExecCfg::default() },
                         bound: None,
-                        scene: Box::new(S { subset, path, mailbox, with_restart, burst, owner_dropped: false, time_races: false, zero_shots: false }),
+                        scene: Box::new(S { subset, path, mailbox, with_restart, burst, owner_dropped: false, time_races: false, zero_shots: false, backlog: false }),
                     });
+                    // a moment of backlog on a small bounded mailbox (kinds that have a waiting send)
+                    if (subset[0] || subset[2]) && mask.count_ones() <= 2 && path == Path::Direct && with_restart == 0 && !burst && mailbox != Mailbox::U {
+                        v.push(Case {
+                            desc: format!("strong-kinds [a backlog at t=5] subset={} path={:?} mailbox={} restart={} burst={}", subset_name(&subset), path, mailbox.name(), with_restart, burst),
+                            exec: ExecCfg { horizon: 40, ..ExecCfg::default() },
+                            bound: Some(if tier == Tier::Thorough { 4 } else { 2 }),
+                            scene: Box::new(S { subset, path, mailbox, with_restart, burst, owner_dropped: false, time_races: false, zero_shots: false, backlog: true }),
+                        });
+                    }
                     // zero-delay one-shots next to the other timers (one strong kind at a time)
                     if mask.count_ones() == 1 && path == Path::Direct && with_restart <= 1 && !burst {
                         v.push(Case {
@@ -582,7 +613,7 @@ fn base_cases(tier: Tier) -> Vec<Case> {
                             exec: ExecCfg { horizon: 30, ..ExecCfg::default() },
                             // (two more timer tasks at t=0: deviation-bounded)
                             bound: Some(if tier == Tier::Thorough { 4 } else { 2 }),
-                            scene: Box::new(S { subset, path, mailbox, with_restart, burst, owner_dropped: false, time_races: false, zero_shots: true }),
+                            scene: Box::new(S { subset, path, mailbox, with_restart, burst, owner_dropped: false, time_races: false, zero_shots: true, backlog: false }),
                         });
                     }
                     // the owner is dropped rather than detached (where it is not one of the survivors)
@@ -591,7 +622,7 @@ fn base_cases(tier: Tier) -> Vec<Case> {
                             desc: format!("strong-kinds [owner dropped, not detached] subset={} path={:?} mailbox={} restart={} burst={}", subset_name(&subset), path, mailbox.name(), with_restart, burst),
                             exec: ExecCfg { horizon: 30, ..ExecCfg::default() },
                             bound: None,
-                            scene: Box::new(S { subset, path, mailbox, with_restart, burst, owner_dropped: true, time_races: false, zero_shots: false }),
+                            scene: Box::new(S { subset, path, mailbox, with_restart, burst, owner_dropped: true, time_races: false, zero_shots: false, backlog: false }),
                         });
                     }
                     // thorough: once more with timer deadlines racing runnable tasks
@@ -600,7 +631,7 @@ fn base_cases(tier: Tier) -> Vec<Case> {
                             desc: format!("strong-kinds [time races] subset={} path={:?} mailbox={} restart={} burst={}", subset_name(&subset), path, mailbox.name(), with_restart, burst),
                             exec: ExecCfg { horizon: 30, max_early_fires: 1, ..ExecCfg::default() },
                             bound: None,
-                            scene: Box::new(S { subset, path, mailbox, with_restart, burst, owner_dropped: false, time_races: true, zero_shots: false }),
+                            scene: Box::new(S { subset, path, mailbox, with_restart, burst, owner_dropped: false, time_races: true, zero_shots: false, backlog: false }),
                         });
                     }
                 }
